@@ -54,7 +54,7 @@ pub open spec fn collapsed_post<F: Fn(R) -> R>(i: Interval<R>, f: F, r: Interval
 
 //@impl src/interval.rs impl<F: Mul<F, Output = F> + PartialOrd + Copy + num_traits::Zero> Mul<F> for Interval<F> mono=F => impl Mul<R> for Interval<R>
 //@fn mul ret r
-//@closure 0| (x: R) -> R
+//@closure 0| (R) -> R
 //@endimpl
 impl MulSpecImpl<R> for Interval<R> {
     open spec fn obeys_mul_spec() -> bool { true }
@@ -63,7 +63,7 @@ impl MulSpecImpl<R> for Interval<R> {
 }
 //@impl src/interval.rs impl<F: Div<F, Output = F> + PartialOrd + Copy + num_traits::Zero> Div<F> for Interval<F> mono=F => impl Div<R> for Interval<R>
 //@fn div ret r
-//@closure 0| (x: R) -> R
+//@closure 0| (R) -> R
 //@endimpl
 impl DivSpecImpl<R> for Interval<R> {
     open spec fn obeys_div_spec() -> bool { true }
@@ -72,7 +72,7 @@ impl DivSpecImpl<R> for Interval<R> {
 }
 //@impl src/interval.rs impl<F: Add<F, Output = F> + PartialOrd + Copy> Add<F> for Interval<F> mono=F => impl Add<R> for Interval<R>
 //@fn add ret r
-//@closure 0| (x: R) -> R
+//@closure 0| (R) -> R
 //@endimpl
 impl AddSpecImpl<R> for Interval<R> {
     open spec fn obeys_add_spec() -> bool { true }
@@ -81,7 +81,7 @@ impl AddSpecImpl<R> for Interval<R> {
 }
 //@impl src/interval.rs impl<F: Sub<F, Output = F> + PartialOrd + Copy> Sub<F> for Interval<F> mono=F => impl Sub<R> for Interval<R>
 //@fn sub ret r
-//@closure 0| (x: R) -> R
+//@closure 0| (R) -> R
 //@endimpl
 impl SubSpecImpl<R> for Interval<R> {
     open spec fn obeys_sub_spec() -> bool { true }
@@ -90,7 +90,7 @@ impl SubSpecImpl<R> for Interval<R> {
 }
 //@impl src/interval.rs impl<F: Neg<Output = F> + PartialOrd + Copy> Neg for Interval<F> mono=F => impl Neg for Interval<R>
 //@fn neg ret r
-//@closure 0| (x: R) -> R
+//@closure 0| (R) -> R
 //@endimpl
 impl NegSpecImpl for Interval<R> {
     open spec fn obeys_neg_spec() -> bool { true }
